@@ -674,6 +674,7 @@ def ping_frame(seq=7):
 
 ITEM_BYTES = {
     "h": lambda: ping_frame(),
+    "e": lambda: struct.pack("!LB", 0, 0) + b"\n",
     "b": lambda: struct.pack("!LB", 3, 0) + b"\xff\xfe\xfd" + b"\n",
     "t": lambda: struct.pack("!LB", 0xFFFFFFFF, 0),
 }
@@ -778,7 +779,7 @@ class Session(object):
         return "L%d A%d c%d f%d p%d q%d fd%d ch%d n%d|%s" % (snap["L"], snap["A"], snap["c"], snap["f"], snap["p"],
                                                              snap["q"], snap["fds"], snap["ch"], snap["n"], " ".join(cl))
 
-    def step(self, tok, expect=None, ceiling=CEILING, settle=0.02):
+    def step(self, tok, expect=None, ceiling=CEILING, settle=0.006):
         """do one op, then wait until the observable state equals `expect` (text after the first '|') and stays so for
         `settle` seconds; without `expect`, until it has not changed for 3 * settle.  Returns (line, agreed)"""
         obs = self.do(tok)
